@@ -175,8 +175,10 @@ class FilReader(Filterbank):
         quiet: bool = False,
         allocator: Callable[[int], Buffer] | None = None,
     ) -> Iterator[tuple[int, int, np.ndarray]]:
-        if nsamps is None:
-            nsamps = self.header.nsamples - start
+        # Plan arithmetic needs Python integers: 32-bit numpy scalars overflow
+        # on streams beyond 2^31 samples or bytes
+        gulp, start, skipback = int(gulp), int(start), int(skipback)
+        nsamps = self.header.nsamples - start if nsamps is None else int(nsamps)
         if description is None:
             description = f"{get_callerfunc(inspect.stack())} : "
         gulp = min(nsamps, gulp)
